@@ -1,5 +1,6 @@
 """C14 — recurrences are values: shifting, equality, hashing and text round trip."""
 import oracle
+import itertools
 import gens
 import tpcommon as T
 import reccommon as R
@@ -370,10 +371,66 @@ class Text(Op):
         return "rtext/%s/fmt%d" % (a[0], dict(a[2])["fmt"])
 
 
+class TextTiny(Op):
+    """The text round trip for intervals with a very small or long-fraction time component (hours, minutes or seconds
+    below 1e-4, which str() prints in exponent notation; fractions with 7+ digits): parse(str(r)) == r with the same
+    points, and the same after a shift.  The component values are exact binary64 numbers, so the round trip of
+    repr(float) is exact."""
+    prop = PROP
+    name = "rtexttiny"
+    model = False
+
+    VALUES = [1e-05, 1.25e-05, 2.5e-05, 1e-07, 2.5e-07, 0.0000125, 0.00009999, 0.0001, 0.0001234567, 0.5 ** 17,
+              0.5 ** 20, 1.0000001, 0.1234567, 12.0000125, 3e-06]
+
+    def gen(self, rng, tier, boost):
+        for _ in range(150 * boost if tier == "quick" else 1500 * boost):
+            m = gens.mode(rng)
+            anchor = R.gen_anchor(rng, m)
+            anchor = T.tp_from_inst(m, T.inst(m, anchor), anchor[0], anchor[7], anchor[8])
+            if not 0 <= anchor[1] <= 9000:
+                continue
+            unit = rng.choice(["seconds", "seconds", "minutes", "hours"])
+            yield (m, anchor, unit, rng.randrange(len(self.VALUES)), rng.choice([None, 2, 3, 5]), rng.choice([3, 4]),
+                   rng.choice([0, 0, 1, 2]))
+
+    def line(self, a):
+        return "rtexttiny %s %s %s=%r reps=%s fmt%d whole-days=%d" % (a[0], T.tp_str(a[1]), a[2], self.VALUES[a[3]],
+                                                                      a[4], a[5], a[6])
+
+    def impl(self, a):
+        from metomi.isodatetime.data import TimeRecurrence, Duration
+        from metomi.isodatetime.parsers import TimeRecurrenceParser
+        m, anchor, unit, vi, reps, fmt, days = a
+        set_mode(m)
+        d = Duration(days=days, **{unit: self.VALUES[vi]})
+        p = T.mk_tp(anchor)
+        rec = TimeRecurrence(repetitions=reps, start_point=p, duration=d) if fmt == 3 else \
+            TimeRecurrence(repetitions=reps, duration=d, end_point=p)
+        problems = []
+        for name, r in (("r", rec), ("r + P1D", rec + Duration(days=1))):
+            text = str(r)
+            back = TimeRecurrenceParser().parse(text)
+            if not (back == r):
+                problems.append("parse(str(%s)) != %s [%s]" % (name, name, text))
+            pts0 = [str(q) for q in itertools.islice(r, 3)]
+            pts1 = [str(q) for q in itertools.islice(back, 3)]
+            if pts0 != pts1 or not all(x == y for x, y in zip(itertools.islice(r, 3), itertools.islice(back, 3))):
+                problems.append("points of %s differ after the round trip [%s]" % (name, text))
+        return "ok" if not problems else "PROBLEMS: " + "; ".join(problems)
+
+    def oracle(self, a, out):
+        if out != "ok":
+            return "%s: %s" % (self.line(a), out)
+
+    def label(self, a):
+        return "rtexttiny/%s/%s/%s" % (a[0], a[2], "tiny" if self.VALUES[a[3]] < 1e-4 else "long-fraction")
+
+
 def ops():
     import common
     common.foreign_configurations()
     import recmm
-    return [Shift(), Eq(), HashEq(), Text(),
+    return [Shift(), Eq(), HashEq(), Text(), TextTiny(),
             recmm.RecMMOp(PROP, "mmvalue", ["mmrshift", "mmreq", "mmreq", "mmrhasheq"], 500),
             __import__("rectextops").RecTextOp()]
